@@ -35,6 +35,11 @@ class RecDom(RecorderDomain):
             st.env[('F', 'self', r.params)] = ACTIVE_PARAMS
         elif self.variant == 'playback':
             st.env[('F', 'self', r.playback)] = PLAYBACK
+        elif self.variant == 'both':
+            # play() called from inside a recorded operation: a recording is being made and another one is being replayed
+            st.env[('F', 'self', r.active)] = ACTIVE
+            st.env[('F', 'self', r.params)] = ACTIVE_PARAMS
+            st.env[('F', 'self', r.playback)] = PLAYBACK
         for attr, truth in sorted(self.assume_attrs.items()):
             st = self._assume_truth(('attr', ACTIVE_PARAMS.name, attr), st, truth)
         return [st]
